@@ -17,7 +17,7 @@ pub fn def() -> CheckDef {
         id: "C15",
         level: "exploration",
         cases: |t| match t {
-            Tier::Quick => 5_000,
+            Tier::Quick => 15_000,
             Tier::Thorough => 400_000,
         },
         gen,
